@@ -2,7 +2,7 @@
 # exploratory sweep: sweep.sh <tier> <seed> [ids...] — runs checks without touching the registered evidence
 tier=${1:-thorough}; seed=${2:-1}; shift 2
 ids=${@:-C01 C02 C03 C04 C05 C06 C07 C08 C09 C10 C11 C12 C13 C14 C15 C16 C17 C18 C19 C20}
-out=/tmp/sweep-$tier-$seed; mkdir -p $out
+out=/tmp/sweep-$tier-$seed${SWEEP_TAG:-}; mkdir -p $out
 mkdir -p $out/bin; cp /verif/bin/vcheck /verif/bin/vcheck-race $out/bin/
 export VERIF_EVIDENCE_DIR=$out/evidence VERIF_SEED=$seed VERIF_BIN_DIR=$out/bin
 for id in $ids; do
